@@ -117,7 +117,7 @@ theorem staRecords_none_in_gap (sf : Bool) (rcv ant ecc : Hist) (r : Record) (hr
 /-- **every pair of consecutive equipment-change dates at whose start receiver, antenna and eccentricity are installed has
 its record** -/
 theorem staRecords_complete (sf : Bool) (rcv ant ecc : Hist) (p : Int × Int)
-    (hp : p ∈ pairwise (eventDates sf rcv ant ecc))
+    (hp : p ∈ pairwise (recordDates sf rcv ant ecc))
     (h1 : ∃ e ∈ rcv, e.from_ ≤ p.1 ∧ p.1 < e.to_) (h2 : ∃ e ∈ ant, e.from_ ≤ p.1 ∧ p.1 < e.to_)
     (h3 : ∃ e ∈ ecc, e.from_ ≤ p.1 ∧ p.1 < e.to_) :
     ∃ r ∈ staRecords sf rcv ant ecc, r.from_ = p.1 ∧ r.to_ = p.2 := by
@@ -210,5 +210,166 @@ theorem staRecords_from_lt_to (sf : Bool) (rcv ant ecc : Hist) (r : Record) (hr 
     simp [h1, h2, h3] at hpr
   subst hpr
   exact hlt
+
+/-! ### a record does not outlast the entries it names -/
+
+theorem mem_insertDate (d x : Int) : ∀ (l : List Int), x ∈ insertDate d l ↔ x = d ∨ x ∈ l := by
+  intro l
+  induction l with
+  | nil => simp [insertDate]
+  | cons y r ih =>
+    simp only [insertDate]
+    by_cases h1 : d < y
+    · simp [h1]
+    · by_cases h2 : d = y
+      · subst h2; simp
+      · simp only [h1, h2, if_false, List.mem_cons, ih]
+        constructor
+        · rintro (h | h | h)
+          · exact Or.inr (Or.inl h)
+          · exact Or.inl h
+          · exact Or.inr (Or.inr h)
+        · rintro (h | h | h)
+          · exact Or.inr (Or.inl h)
+          · exact Or.inl h
+          · exact Or.inr (Or.inr h)
+
+theorem mem_sortDates (x : Int) : ∀ (l : List Int), x ∈ sortDates l ↔ x ∈ l := by
+  intro l
+  induction l with
+  | nil => simp [sortDates]
+  | cons a r ih =>
+    have e : sortDates (a :: r) = insertDate a (sortDates r) := rfl
+    rw [e, mem_insertDate, ih]; simp
+
+theorem ascending_head_lt : ∀ (l : List Int) (a : Int), ascending (a :: l) = true → ∀ x ∈ l, a < x := by
+  intro l
+  induction l with
+  | nil => intro a _ x hx; simp at hx
+  | cons b r ih =>
+    intro a h x hx
+    simp only [ascending, Bool.and_eq_true, decide_eq_true_eq] at h
+    rcases List.mem_cons.mp hx with rfl | hx
+    · exact h.1
+    · have := ih b h.2 x hx; omega
+
+/-- in an ascending list the successor of `a` is the least element above `a` -/
+theorem pairwise_next_le : ∀ (l : List Int), ascending l = true → ∀ p ∈ pairwise l, ∀ x ∈ l, p.1 < x → p.2 ≤ x := by
+  intro l
+  induction l with
+  | nil => intro _ p hp; simp [pairwise] at hp
+  | cons a r ih =>
+    intro h p hp x hx hlt
+    cases r with
+    | nil => simp [pairwise] at hp
+    | cons b r' =>
+      have h' := h
+      simp only [ascending, Bool.and_eq_true, decide_eq_true_eq] at h
+      simp only [pairwise, List.mem_cons] at hp
+      rcases hp with rfl | hp
+      · rcases List.mem_cons.mp hx with rfl | hx
+        · simp at hlt
+        · rcases List.mem_cons.mp hx with rfl | hx
+          · exact Int.le_refl _
+          · have := ascending_head_lt r' b h.2 x hx; simp; omega
+      · rcases List.mem_cons.mp hx with rfl | hx
+        · have hp1 : p.1 ∈ b :: r' := by
+            clear ih hlt
+            generalize b :: r' = m at hp
+            induction m with
+            | nil => simp [pairwise] at hp
+            | cons c m ihm =>
+              cases m with
+              | nil => simp [pairwise] at hp
+              | cons d m' =>
+                simp only [pairwise, List.mem_cons] at hp
+                rcases hp with rfl | hp
+                · simp
+                · exact List.mem_cons_of_mem _ (ihm hp)
+          have := ascending_head_lt (b :: r') x h' p.1 hp1
+          omega
+        · exact ih h.2 p hp x hx hlt
+
+/-- the end of an entry is a record date when every start of the history is an event -/
+theorem to_mem_recordDates (sf : Bool) (rcv ant ecc h : Hist) (e : Entry) (he : e ∈ h)
+    (hstarts : ∀ x ∈ h, x.from_ ∈ eventDates sf rcv ant ecc)
+    (hclose : ∀ x ∈ closingDates h, x ∈ recordDates sf rcv ant ecc) :
+    e.to_ ∈ recordDates sf rcv ant ecc := by
+  by_cases hs : ∃ x ∈ h, x.from_ = e.to_
+  · obtain ⟨x, hx, hxe⟩ := hs
+    rw [← hxe]
+    unfold recordDates
+    rw [mem_sortDates]
+    simp only [List.mem_append]
+    exact Or.inl (Or.inl (Or.inl (hstarts x hx)))
+  · apply hclose
+    simp only [closingDates, List.mem_map, List.mem_filter]
+    refine ⟨e, ⟨he, ?_⟩, rfl⟩
+    simp only [Bool.not_eq_true', List.any_eq_false, decide_eq_true_eq]
+    intro x hx hxe
+    exact hs ⟨x, hx, hxe⟩
+
+theorem ant_from_mem (sf : Bool) (rcv ant ecc : Hist) : ∀ x ∈ ant, x.from_ ∈ eventDates sf rcv ant ecc := by
+  intro x hx
+  unfold eventDates
+  rw [mem_sortDates]
+  simp only [List.mem_append, List.mem_map]
+  exact Or.inl (Or.inl (Or.inr ⟨x, hx, rfl⟩))
+
+theorem ecc_from_mem (sf : Bool) (rcv ant ecc : Hist) : ∀ x ∈ ecc, x.from_ ∈ eventDates sf rcv ant ecc := by
+  intro x hx
+  unfold eventDates
+  rw [mem_sortDates]
+  simp only [List.mem_append, List.mem_map]
+  exact Or.inl (Or.inr ⟨x, hx, rfl⟩)
+
+theorem rcvEvents_all (rcv : Hist) : ∀ (former : Option Nat) (l : List Entry), rcvEventsFrom false rcv former l = l.map (·.from_) := by
+  intro former l
+  induction l generalizing former with
+  | nil => rfl
+  | cons e r ih => simp [rcvEventsFrom, ih]
+
+theorem rcv_from_mem (rcv ant ecc : Hist) : ∀ x ∈ rcv, x.from_ ∈ eventDates false rcv ant ecc := by
+  intro x hx
+  unfold eventDates
+  rw [mem_sortDates, rcvEvents_all]
+  simp only [List.mem_append, List.mem_map]
+  exact Or.inl (Or.inl (Or.inl ⟨x, hx, rfl⟩))
+
+theorem closing_mem (sf : Bool) (rcv ant ecc : Hist) (x : Int)
+    (h : x ∈ closingDates rcv ∨ x ∈ closingDates ant ∨ x ∈ closingDates ecc) : x ∈ recordDates sf rcv ant ecc := by
+  unfold recordDates
+  rw [mem_sortDates]
+  simp only [List.mem_append]
+  rcases h with h | h | h
+  · exact Or.inl (Or.inl (Or.inr h))
+  · exact Or.inl (Or.inr h)
+  · exact Or.inr h
+
+/-- **a TYPE 002 record ends no later than the antenna and eccentricity entries it names — and, without
+`skip_firmware`, the receiver entry**: the file never claims equipment beyond the end of its entry in the site information -/
+theorem staRecords_within_entries (sf : Bool) (rcv ant ecc : Hist) (r : Record) (hr : r ∈ staRecords sf rcv ant ecc) :
+    r.to_ ≤ r.ant.to_ ∧ r.to_ ≤ r.ecc.to_ ∧ (sf = false → r.to_ ≤ r.rcv.to_) := by
+  obtain ⟨⟨hr1, hr2, hr3⟩, ⟨ha1, ha2, ha3⟩, ⟨he1, he2, he3⟩⟩ := staRecords_sound sf rcv ant ecc r hr
+  simp only [staRecords, List.mem_filterMap] at hr
+  obtain ⟨p, hp, hpr⟩ := hr
+  have hasc : ascending (recordDates sf rcv ant ecc) = true := ascending_sortDates _
+  have hp12 : r.from_ = p.1 ∧ r.to_ = p.2 := by
+    cases h1 : objectForDate p.1 rcv <;> cases h2 : objectForDate p.1 ant <;> cases h3 : objectForDate p.1 ecc <;>
+      simp [h1, h2, h3] at hpr
+    subst hpr; exact ⟨rfl, rfl⟩
+  have key : ∀ x ∈ recordDates sf rcv ant ecc, r.from_ < x → r.to_ ≤ x := by
+    intro x hx hlt
+    rw [hp12.1] at hlt; rw [hp12.2]
+    exact pairwise_next_le _ hasc p hp x hx hlt
+  refine ⟨?_, ?_, ?_⟩
+  · exact key _ (to_mem_recordDates sf rcv ant ecc ant r.ant ha1 (ant_from_mem sf rcv ant ecc)
+      (fun x hx => closing_mem sf rcv ant ecc x (Or.inr (Or.inl hx)))) ha3
+  · exact key _ (to_mem_recordDates sf rcv ant ecc ecc r.ecc he1 (ecc_from_mem sf rcv ant ecc)
+      (fun x hx => closing_mem sf rcv ant ecc x (Or.inr (Or.inr hx)))) he3
+  · intro hsf
+    subst hsf
+    exact key _ (to_mem_recordDates false rcv ant ecc rcv r.rcv hr1 (rcv_from_mem rcv ant ecc)
+      (fun x hx => closing_mem false rcv ant ecc x (Or.inl hx))) hr3
 
 end Midgard.WriterSta
